@@ -72,21 +72,24 @@ theorem strncpy_s_C02_all_partial (cfg : Cfg) (dest dmax src slen : Nat) (db sb 
     (hov : ∀ b s, db = some b → sb = some s → s < slen → b ≤ dmax)
     (hd : dest ≠ 0 → RW st dest dmax) (hs : src ≠ 0 → StrRd st src (min dmax slen)) :
     Runs (strncpy_s cfg dest dmax src slen db sb) st :=
-  runs_of_AccS (strncpyG_accs _ cfg dest dmax src slen db sb hov hs (fun h => Rd_of_RW (hd h)) (fun h => Wr_of_RW (hd h)))
+  runs_of_AccS (strncpyG_accs _ cfg dest dmax src slen db sb (fun h => hob_of_hov hov (Rd_of_RW (hd h)) (Wr_of_RW (hd h))) hs
+    (fun h => Rd_of_RW (hd h)) (fun h => Wr_of_RW (hd h)))
 
 /-- **strncat_s**, same exception -/
 theorem strncat_s_C02_partial (cfg : Cfg) (dest dmax src slen : Nat) (db sb : Bos) (st : St)
     (hov : ∀ b s, db = some b → sb = some s → s < slen → b ≤ dmax)
     (hd : dest ≠ 0 → RW st dest dmax) (hs : src ≠ 0 → StrRd st src (min dmax slen)) :
     Runs (strncat_s cfg dest dmax src slen db sb) st :=
-  runs_of_AccS (strncatG_accs _ cfg dest dmax src slen db sb hov hs (fun h => Rd_of_RW (hd h)) (fun h => Wr_of_RW (hd h)))
+  runs_of_AccS (strncatG_accs _ cfg dest dmax src slen db sb (fun h => hob_of_hov hov (Rd_of_RW (hd h)) (Wr_of_RW (hd h))) hs
+    (fun h => Rd_of_RW (hd h)) (fun h => Wr_of_RW (hd h)))
 
 /-- **stpncpy_s**, same exception -/
 theorem stpncpy_s_C02_partial (cfg : Cfg) (dest dmax src slen : Nat) (db sb : Bos) (st : St)
     (hov : ∀ b s, db = some b → sb = some s → s < slen → b ≤ dmax)
     (hd : dest ≠ 0 → RW st dest dmax) (hs : src ≠ 0 → StrRd st src (min dmax slen)) :
     Runs (stpncpy_s cfg dest dmax src slen db sb) st :=
-  runs_of_AccS (stpncpy_s_accs cfg dest dmax src slen db sb hov hs (fun h => Rd_of_RW (hd h)) (fun h => Wr_of_RW (hd h)))
+  runs_of_AccS (stpncpy_s_accs cfg dest dmax src slen db sb (fun h => hob_of_hov hov (Rd_of_RW (hd h)) (Wr_of_RW (hd h))) hs
+    (fun h => Rd_of_RW (hd h)) (fun h => Wr_of_RW (hd h)))
 
 /-- the same three with the object sizes as the property's "unknown to the library" case: FULL -/
 theorem strncat_s_C02_nobos (cfg : Cfg) (dest dmax src slen : Nat) (st : St)
@@ -98,6 +101,38 @@ theorem stpncpy_s_C02_nobos (cfg : Cfg) (dest dmax src slen : Nat) (st : St)
     (hd : dest ≠ 0 → RW st dest dmax) (hs : src ≠ 0 → StrRd st src (min dmax slen)) :
     Runs (stpncpy_s cfg dest dmax src slen none none) st :=
   stpncpy_s_C02_partial cfg dest dmax src slen none none st (fun _ _ h => by cases h) hd hs
+
+/-! ## the same three, FULL, with the whole OBJECT declared on the `slen > srcbos` exit
+
+`hobj`: when `slen` exceeds a known `srcbos` and `destbos` is known, the `destbos` cells of the object dest points into are
+readable and writable (they exist — that is what `__builtin_object_size` says — but lie outside what the CALL declared). -/
+
+/-- **strncpy_s** (FULL w.r.t. the object): never leaves `max dmax destbos` cells of dest -/
+theorem strncpy_s_C02_object (cfg : Cfg) (dest dmax src slen : Nat) (db sb : Bos) (st : St)
+    (hobj : dest ≠ 0 → ∀ b s, db = some b → sb = some s → s < slen → RW st dest b)
+    (hd : dest ≠ 0 → RW st dest dmax) (hs : src ≠ 0 → StrRd st src (min dmax slen)) :
+    Runs (strncpy_s cfg dest dmax src slen db sb) st :=
+  runs_of_AccS (strncpyG_accs _ cfg dest dmax src slen db sb
+    (fun h b s h1 h2 h3 => ⟨Rd_of_RW (hobj h b s h1 h2 h3), Wr_of_RW (hobj h b s h1 h2 h3)⟩) hs
+    (fun h => Rd_of_RW (hd h)) (fun h => Wr_of_RW (hd h)))
+
+/-- **strncat_s** (FULL w.r.t. the object) -/
+theorem strncat_s_C02_object (cfg : Cfg) (dest dmax src slen : Nat) (db sb : Bos) (st : St)
+    (hobj : dest ≠ 0 → ∀ b s, db = some b → sb = some s → s < slen → RW st dest b)
+    (hd : dest ≠ 0 → RW st dest dmax) (hs : src ≠ 0 → StrRd st src (min dmax slen)) :
+    Runs (strncat_s cfg dest dmax src slen db sb) st :=
+  runs_of_AccS (strncatG_accs _ cfg dest dmax src slen db sb
+    (fun h b s h1 h2 h3 => ⟨Rd_of_RW (hobj h b s h1 h2 h3), Wr_of_RW (hobj h b s h1 h2 h3)⟩) hs
+    (fun h => Rd_of_RW (hd h)) (fun h => Wr_of_RW (hd h)))
+
+/-- **stpncpy_s** (FULL w.r.t. the object) -/
+theorem stpncpy_s_C02_object (cfg : Cfg) (dest dmax src slen : Nat) (db sb : Bos) (st : St)
+    (hobj : dest ≠ 0 → ∀ b s, db = some b → sb = some s → s < slen → RW st dest b)
+    (hd : dest ≠ 0 → RW st dest dmax) (hs : src ≠ 0 → StrRd st src (min dmax slen)) :
+    Runs (stpncpy_s cfg dest dmax src slen db sb) st :=
+  runs_of_AccS (stpncpy_s_accs cfg dest dmax src slen db sb
+    (fun h b s h1 h2 h3 => ⟨Rd_of_RW (hobj h b s h1 h2 h3), Wr_of_RW (hobj h b s h1 h2 h3)⟩) hs
+    (fun h => Rd_of_RW (hd h)) (fun h => Wr_of_RW (hd h)))
 
 /-! ## witness -/
 
